@@ -1,5 +1,6 @@
-(* C10 — well-formed relationship fields are read exactly as written (lossless reader).
-   Statements only; proofs in proofs/RelGrammarLexP.v, RelGrammarParseP.v, RelGrammarAccP.v.
+(* C10 — well-formed relationship fields are read exactly as written, by both readers.
+   Statements only; proofs in proofs/RelGrammarLexP.v, RelGrammarParseP.v, RelGrammarAccP.v (lossless
+   reader, sections 1-7) and proofs/RelGrammarLossyP.v (lossy reader, section 8).
 
    The quantifier is RelGrammar.rfield restricted by RelGrammar.wf_rfield: the Debian Policy 7.1
    relationship grammar over arbitrary package names / versions / architecture / profile names
